@@ -93,6 +93,80 @@ func (o apiOp) wire() string {
 	return o.name
 }
 
+// coroutine styles of a generated script (C12: an API call made from inside a Lua coroutine acts on the same machine
+// and returns the same values as the call made from the main chunk; gopher-lua hands the API function the
+// coroutine's own LState, not the one the context was created with)
+const (
+	coNone   = 0 // every call from the main thread
+	coWrap   = 1 // each section of the script runs inside one coroutine.wrap(function() ... end)()
+	coEach   = 2 // every call in a coroutine of its own; arguments and results travel through resume/yield
+	coResume = 3 // each section is one coroutine.create that yields after every call and is resumed until dead
+	coMixed  = 4 // calls alternate between the main thread and coroutines
+)
+
+// luaIn: the call as Lua text inside a coroutine of its own.  The value of a set_* call is the SECOND argument of the
+// coroutine (the first is an unrelated number), the result of a get_* call comes back through yield.
+func (o apiOp) luaIn(r *rng.R) string {
+	fn := map[string]string{"sa": "set_accu", "sx": "set_xreg", "sy": "set_yreg", "ss": "set_sp", "sp": "set_pc",
+		"ga": "get_accu", "gx": "get_xreg", "gy": "get_yreg", "gs": "get_sp", "gp": "get_pc", "gf": "get_flags", "gc": "get_cycles"}[o.name]
+	switch o.name {
+	case "sa", "sx", "sy", "ss", "sp":
+		other := (o.v + 1 + r.Intn(200)) & 0xFF
+		if r.Bool() {
+			return fmt.Sprintf("coroutine.wrap(function(d, v) %s(v) end)(%d, %d)", fn, other, o.v)
+		}
+		return fmt.Sprintf("do local co = coroutine.create(function(d, v) %s(v) end); local ok, e = coroutine.resume(co, %d, %d); if not ok then error(e) end end", fn, other, o.v)
+	case "ga", "gx", "gy", "gs", "gp", "gf", "gc":
+		switch r.Intn(3) {
+		case 0:
+			return fmt.Sprintf("rec(coroutine.wrap(function() coroutine.yield(%s()) end)())", fn)
+		case 1:
+			return fmt.Sprintf("rec(coroutine.wrap(function() return %s() end)())", fn)
+		}
+		return fmt.Sprintf("do local co = coroutine.create(function(d) local x = %s(); coroutine.yield(d, x) end); local ok, d, x = coroutine.resume(co, %d); if not ok then error(d) end; rec(x) end", fn, 1+r.Intn(255))
+	}
+	return "coroutine.wrap(function() " + o.lua() + " end)()"
+}
+
+// renderOps writes one section of the script (chunk level, body of arrange, body of assert) in the given style
+func renderOps(sb *strings.Builder, r *rng.R, ops []apiOp, indent string, style int) {
+	if len(ops) == 0 {
+		return
+	}
+	switch style {
+	case coWrap:
+		sb.WriteString(indent + "coroutine.wrap(function()\n")
+		for _, o := range ops {
+			sb.WriteString(indent + "  " + o.lua() + "\n")
+		}
+		sb.WriteString(indent + "end)()\n")
+	case coEach:
+		for _, o := range ops {
+			sb.WriteString(indent + o.luaIn(r) + "\n")
+		}
+	case coResume:
+		sb.WriteString(indent + "do\n" + indent + "  local co = coroutine.create(function()\n")
+		for _, o := range ops {
+			sb.WriteString(indent + "    " + o.lua() + "\n" + indent + "    coroutine.yield()\n")
+		}
+		sb.WriteString(indent + "  end)\n")
+		sb.WriteString(indent + "  while coroutine.status(co) ~= 'dead' do local ok, e = coroutine.resume(co); if not ok then error(e) end end\n")
+		sb.WriteString(indent + "end\n")
+	case coMixed:
+		for _, o := range ops {
+			if r.Bool() {
+				sb.WriteString(indent + o.luaIn(r) + "\n")
+			} else {
+				sb.WriteString(indent + o.lua() + "\n")
+			}
+		}
+	default:
+		for _, o := range ops {
+			sb.WriteString(indent + o.lua() + "\n")
+		}
+	}
+}
+
 func apiAddr(r *rng.R, flat bool) int {
 	if flat && r.Chance(30) {
 		return []int{0xFFFF, 0xFFFE, 0xFFF0, 0x0000, 0x0001, 0x00FF, 0x0100, 0x01FF, 0xFFFD}[r.Intn(9)]
@@ -318,23 +392,27 @@ func apiCase(r *rng.R, dir string) string {
 		}
 	}
 
+	// where the calls are made from: the main thread, or Lua coroutines (same requests, same expected results)
+	co := coNone
+	if r.Chance(35) {
+		co = 1 + r.Intn(4)
+	}
+
 	var sb strings.Builder
 	sb.WriteString("out = {}\nfunction rec(x) out[#out+1] = tostring(x) end\n")
 	fmt.Fprintf(&sb, "function num_iterations() return %d end\n", iters)
 	if trap {
-		sb.WriteString("function trap(c) rec(get_cycles()); rec(c) end\n")
+		if co != coNone {
+			sb.WriteString("function trap(c) coroutine.wrap(function(d, v) rec(get_cycles()); rec(v) end)(0, c) end\n")
+		} else {
+			sb.WriteString("function trap(c) rec(get_cycles()); rec(c) end\n")
+		}
 	}
-	for _, o := range p0 {
-		sb.WriteString(o.lua() + "\n")
-	}
+	renderOps(&sb, r, p0, "", co)
 	sb.WriteString("function arrange()\n")
-	for _, o := range p1 {
-		sb.WriteString("  " + o.lua() + "\n")
-	}
+	renderOps(&sb, r, p1, "  ", co)
 	sb.WriteString("end\nfunction assert()\n")
-	for _, o := range p2 {
-		sb.WriteString("  " + o.lua() + "\n")
-	}
+	renderOps(&sb, r, p2, "  ", co)
 	sb.WriteString("  local f = io.open(test_dir .. 'api_out.txt', 'w')\n  f:write(table.concat(out, ' '))\n  f:close()\n  return true\nend\n")
 	writeFile(dir, "api.lua", []byte(sb.String()))
 	bin := writeFile(dir, "api.bin", prg(uint16(loadAt), code...))
@@ -360,7 +438,7 @@ func apiCase(r *rng.R, dir string) string {
 		if trap {
 			trp = 1
 		}
-		pend("luaapi %d %s %x %d %d | %s | %s", model, spec, loadAt, iters, trp, strings.Join(w1, " "), strings.Join(w2, " "))
+		pend("luaapi %d %s %x %d %d co%d | %s | %s", model, spec, loadAt, iters, trp, co, strings.Join(w1, " "), strings.Join(w2, " "))
 	}
 	used := r.Chance(30)
 	if used {
@@ -414,11 +492,12 @@ func apiCase(r *rng.R, dir string) string {
 		w2 = append(w2, x.wire())
 	}
 	count("luaapi." + spec)
+	count(fmt.Sprintf("luaapi.co%d", co))
 	tr := 0
 	if trap {
 		tr = 1
 	}
-	return fmt.Sprintf("luaapi %d %s %x %d %d | %s | %s => %s | %s", model, spec, loadAt, iters, tr, strings.Join(w1, " "), strings.Join(w2, " "), res, o)
+	return fmt.Sprintf("luaapi %d %s %x %d %d co%d | %s | %s => %s | %s", model, spec, loadAt, iters, tr, co, strings.Join(w1, " "), strings.Join(w2, " "), res, o)
 }
 
 // trapGlobalsCase: the globals a trap script of run/profile sees (commands.LoadAndRunBinary): load_address and prog_len
@@ -514,6 +593,115 @@ func longFaultCase(r *rng.R, dir string) string {
 	return fmt.Sprintf("longfault %s %s %x => %s", spec, op, addr, res)
 }
 
+// bigPayloadByte: byte number i of the payload of a bigProgCase binary: a BRK first (the program is run), then a
+// pattern without zero bytes (a byte that was not loaded reads as zero on the fresh machine)
+func bigPayloadByte(i, mul, add int) uint8 {
+	if i == 0 {
+		return 0
+	}
+	return uint8(1 + (i*mul+add)%255)
+}
+
+// bigProgCase: load_address and prog_len describe the binary that was loaded, for every payload length a 16 bit
+// prog_len can describe: the largest (65535 bytes, file size 65537) and its neighbours, lengths around 32K and 256,
+// and short ones.  The script records the two variables at chunk level, in arrange and in assert, and reads the loaded
+// bytes back (first, last, the cell after the last, a window over the end, random cells); on the 64K machine the
+// payload wraps around $FFFF.  fixedLen > 0 selects a boundary length.
+func bigProgCase(r *rng.R, dir string, fixedLen int) string {
+	model := r.Intn(2)
+	plen := fixedLen
+	if plen == 0 {
+		switch r.Intn(10) {
+		case 0, 1, 2:
+			plen = 65535 - r.Intn(4)
+		case 3, 4:
+			plen = 65535 - r.Intn(300)
+		case 5:
+			plen = 0x8000 - 2 + r.Intn(5)
+		case 6:
+			plen = 254 + r.Intn(5)
+		case 7:
+			plen = 0x4000 + r.Intn(0xBF00)
+		default:
+			plen = 1 + r.Intn(2000)
+		}
+	}
+	loadAt := []int{0x0200, 0x0800, 0x0801, 0x1000, 0xC000, 0x0000, 0xFFFF, 0x00F0}[r.Intn(8)]
+	if r.Chance(30) {
+		loadAt = int(r.Word())
+	}
+	mul := 1 + 2*r.Intn(127)
+	add := r.Intn(255)
+	payload := make([]uint8, plen)
+	for i := range payload {
+		payload[i] = bigPayloadByte(i, mul, add)
+	}
+	last := (loadAt + plen - 1) & 0xFFFF
+	probes := []int{loadAt, last, (last + 1) & 0xFFFF, (loadAt + 1) & 0xFFFF, (last - 1) & 0xFFFF, (loadAt - 1) & 0xFFFF}
+	for i := 0; i < 4; i++ {
+		probes = append(probes, int(r.Word()))
+	}
+	gmAt, gmLen := (last-5)&0xFFFF, 8 // a window from inside the payload over its end
+	inCo := r.Chance(30)
+
+	var sb strings.Builder
+	sb.WriteString("out = {}\nfunction rec(x) out[#out+1] = tostring(x) end\n")
+	vars := "rec(load_address); rec(prog_len)"
+	if inCo {
+		vars = "coroutine.wrap(function() rec(load_address); rec(prog_len) end)()"
+	}
+	sb.WriteString(vars + "\n")
+	sb.WriteString("function arrange()\n  " + vars + "\n  rec(get_pc())\nend\n")
+	sb.WriteString("function assert()\n  " + vars + "\n")
+	ws := []string{}
+	for _, a := range probes {
+		fmt.Fprintf(&sb, "  rec(read_byte(%d))\n", a)
+		ws = append(ws, fmt.Sprintf("%x", a))
+	}
+	fmt.Fprintf(&sb, "  rec('m' .. get_memory(%d, %d))\n", gmAt, gmLen)
+	sb.WriteString("  local f = io.open(test_dir .. 'big_out.txt', 'w')\n  f:write(table.concat(out, ' '))\n  f:close()\n  return true\nend\n")
+	writeFile(dir, "big.lua", []byte(sb.String()))
+	bin := writeFile(dir, "big.bin", prg(uint16(loadAt), payload...))
+	outFile := filepath.Join(dir, "big_out.txt")
+	os.Remove(outFile)
+
+	co := 0
+	if inCo {
+		co = 1
+	}
+	req := fmt.Sprintf("luaapi big %d %x %d %d %d co%d | %s | %x:%x", model, loadAt, plen, mul, add, co, strings.Join(ws, " "), gmAt, gmLen)
+	pend("%s", req)
+	cfg := emuconfig.DefaultConfig()
+	cfg.MemSpec = "Linear64K"
+	if model == 1 {
+		cfg.Model = "65C02"
+	}
+	res := "ok"
+	var err error
+	if protect(func() {
+		c, e := cfg.NewCpu()
+		if e != nil {
+			panic(e)
+		}
+		tc := &verifier.TestCase{Name: "big", TestDriverSource: "big.a", TestScript: "big.lua"}
+		err = tc.Execute(c, &fakeAsm{bins: map[string]string{"big.a": bin}}, dir, nil, nil, "id")
+	}) {
+		res = "hostcrash"
+	} else if err != nil {
+		res = "error"
+	}
+	out, rerr := os.ReadFile(outFile)
+	o := strings.TrimSpace(string(out))
+	if rerr != nil || o == "" {
+		o = "-"
+	}
+	count("luaapi.bigprog")
+	if plen >= 65534 {
+		count(fmt.Sprintf("luaapi.bigprog.%d", plen))
+	}
+	return req + " => " + res + " | " + o
+}
+
 func luaapiStream(seed uint64, n int) {
 	r := rng.New(seed + 1212)
 	dir := tmpDir()
@@ -525,6 +713,10 @@ func luaapiStream(seed uint64, n int) {
 		}
 		if i%10 == 7 {
 			emit(longFaultCase(r, dir))
+		}
+		if i%10 == 5 {
+			// the two largest payloads first, then a mix
+			emit(bigProgCase(r, dir, map[int]int{5: 65535, 15: 65534, 25: 65533}[i]))
 		}
 	}
 }
